@@ -1,7 +1,9 @@
 """C01 - events take effect in time order, urgent first, then in trigger order."""
 import json
 from harness import kprops, koracle, klong, kbridge
-from harness.kbridge import EXTRA_MODULES, TRUSTED_EXTRA, prepare
+from harness.kbridge import TRUSTED_EXTRA
+EXTRA_MODULES = kbridge.MODULES['C01']      # this property's bridge modules only (py2lean/SCOPE.md)
+prepare = kbridge.prepare_for('C01')    # regenerates only the generated files this property owns
 
 ASSUMPTIONS = [
     'delays are finite non-NaN numbers; Environment.schedule/Event.trigger are not called directly by user code',
